@@ -122,6 +122,14 @@ MUTANTS = {
           "        key = (lineno, column)\n        c = _coord_cache.get(key)\n        if c is None:\n            c = _coord_cache[key] = Coord(file=self.clex.filename, line=lineno, column=column)\n        return c\n")],
         "module-level Coord cache keyed by (line, column)",
     ),
+    "coord_cache_on_sys": (
+        ["C12", "C13"],
+        [("pycparser/c_parser.py", "from dataclasses import dataclass\n", "import sys\nfrom dataclasses import dataclass\n"),
+         ("pycparser/c_parser.py",
+          "        return Coord(file=self.clex.filename, line=lineno, column=column)\n",
+          "        cache = sys.__dict__.setdefault('_pyc_coord_cache', {})\n        key = (lineno, column)\n        c = cache.get(key)\n        if c is None:\n            c = cache[key] = Coord(file=self.clex.filename, line=lineno, column=column)\n        return c\n")],
+        "Coord cache parked on the sys module: survives fresh module sets (blind spot of the in-process isolation; found through the isolation cross-check)",
+    ),
     "nodevisitor_class_cache": (
         ["C13"],
         [("pycparser/c_ast.py",
@@ -225,7 +233,7 @@ def main(args):
             passed, failed = run_suite(copy) if not os.environ.get("SELFTEST_SKIP_SUITE") else (-1, -1)
             for prop in props:
                 t0 = time.time()
-                p = subprocess.run([check, prop, "quick", "--repo", copy, "--budget", str(budget), "--no-det"], capture_output=True, text=True)
+                p = subprocess.run([check, prop, "quick", "--repo", copy, "--budget", str(budget)] + ([] if name == "coord_cache_on_sys" else ["--no-det"]), capture_output=True, text=True)
                 dt = time.time() - t0
                 m = re.search(r"^VIOLATION property=(\S+) replay=(\S+)", p.stdout, re.M)
                 caught = p.returncode == 1 and m is not None
